@@ -91,6 +91,38 @@ def mk_diff(run, bins):
                         applicable=lambda c, b: not (b == "release" and c.prefix[0] in (2, 3)))
 
 
+def big_windows(run, bins):
+    """LARGE windows (thousands of elements, 64 KiB and more of retained bytes), harness family windowbig: the window after the last
+    four pushes of a long history is compared, inside the harness, with the closed form of theorem window_is_last_n (the slice is
+    exactly the last N pushed values). The safe VectorStorage is only driven up to its capacity (finding D6 starts at the first rewind)."""
+    rng = run.rng
+    BIG = [("u64", 0, 8192, 8200), ("u64", 0, 300, 301), ("u64", 0, 9000, 18001),
+           ("u64", 2, 8192, 8200), ("u64", 2, 9000, 18001), ("u32", 2, 16384, 16400), ("u32", 2, 20000, 20003), ("tri", 2, 6000, 6011),
+           ("u64", 3, 70000, 140000), ("u64", 1, 70000, 140000)]
+    if not run.thorough:
+        BIG = [BIG[0], BIG[3], rng.choice(BIG[4:8]), BIG[8], BIG[9]]
+    n_ok = 0; n_cases = 0
+    for (ty, b, n, c) in BIG:
+        for pushes in ([c + 2, 2 * c + 5, rng.randrange(c + 1, 4 * c)] if b != 1 else [c - 3, n + 5]):
+            ln = f"windowbig_{ty} {b} {n} {c} {pushes} {rng.randrange(1, 1000)}"
+            for tag, binary in bins.items():
+                if tag == "release" and b in (2, 3): continue
+                if tag == "unsafe-debug" and pushes > 40000: continue
+                rc, outs, err = run_lines(binary, [ln], line_timeout=120)
+                o = outs[0] if outs else "<no answer>"
+                run.cov["evaluations"] += 1; n_cases += 1
+                if o.split() == ["0", "1", "1", "1", "0"] * 4:
+                    n_ok += 1; continue
+                run.violation({"kind": "property-oracle-failed-on-implementation",
+                               "why": f"{BACK[b]} (build {tag}), window of {n} elements, capacity {c}, {pushes} pushes: after one of the last four pushes the window is not the last {n} pushed "
+                                      "values (per checked push: slice positions that differ, first ok, last ok, filled, arr positions that differ; expected 0 1 1 1 0)",
+                               "harness_line": ln, "build": tag, "expected": "0 1 1 1 0 " * 4, "got": o, "bigwindow": True,
+                               "rerun": "cd /verif && python3 bin/check.py C07 --replay <this file>"})
+                run.cov["large_windows"] = {"cases": n_cases, "agree": n_ok}
+                return
+    run.cov["large_windows"] = {"cases": n_cases, "agree": n_ok}
+
+
 def corpus_cases():
     out = []
     p = os.path.join(VERIF, "corpus", "C07")
@@ -114,6 +146,7 @@ def main():
     for i in range(0, len(cases), B):
         d.process(cases[i:i + B])
     found = d.finish()
+    big_windows(run, bins)
     proof_failure_violation(run, found or run.violations)
     run.cov["rule"] = ("one case = (backend, SIZE, CAPACITY|size*multiple, element type, history of distinct values); all observables "
                        "(filled, empty, first, last, slice, vec, arr) compared after EVERY push; exhaustive grid SIZE 1..6 x CAPACITY SIZE+1..3*SIZE+1 "
@@ -130,4 +163,11 @@ def main():
 
 def replay(path):
     run = Run("C07"); ensure_driver(); bins = builds(run)
+    dj = json.load(open(path))
+    if dj.get("bigwindow"):
+        rc, outs, err = run_lines(bins[dj["build"]], [dj["harness_line"]], line_timeout=120)
+        got = outs[0] if outs else "<no answer>"
+        print("expected:", dj["expected"]); print("got     :", got)
+        bad = got.split() != dj["expected"].split()
+        print("REPRODUCED" if bad else "not reproduced"); return 1 if bad else 0
     return generic_replay(mk_diff(run, bins), path)
